@@ -304,9 +304,11 @@ class Ctx:
         return self.callable_value(fn, defs, args[self.dfs_params[2]])
 
 
-def chain_calls(node: ast.AST) -> set[str]:
-    return {c.func.attr for c in ast.walk(node) if isinstance(c, ast.Call) and isinstance(c.func, ast.Attribute)
-            and c.func.attr.startswith("is_") and c.func.attr.endswith("_chain")}
+def chain_calls(c: Any) -> set[str]:
+    """The is_*_chain predicates of the graph asked by a canonical predicate form (after helpers were read in
+    line and quantifiers over literal tuples of predicates were unrolled)."""
+    import re
+    return set(re.findall(r"GRAPH\.(is_\w+_chain)\(", repr(c)))
 
 
 def is_empty_set(e: ast.AST | None) -> bool:
@@ -351,7 +353,7 @@ def check_part(run: Run, cx: Ctx) -> None:
             forms[role] = (h, calls[0], got_c[0], got_c[1])
     for name, (fn, node, _c, e) in forms.items():
         run.analysed(fn.qual)
-        got = chain_calls(e)
+        got = chain_calls(_c)
         run.check(got == want, "C12.PART", fn.qual, f"{name} excludes {sorted(got)}",
                   f"`{name}` separates consumers from {sorted(got)} but the other sibling predicates (and the "
                   f"graph) use {sorted(want)}: the two consumer-formula variants, or consumer vs the device "
@@ -381,7 +383,7 @@ def check_part(run: Run, cx: Ctx) -> None:
     defs = cx.defs(prod)
     calls = cx.graph_dfs_calls(prod, defs)
     pc = cx.dfs_condition(prod, defs, calls[0]) if len(calls) == 1 else None
-    got = chain_calls(pc[1]) if pc else set()
+    got = chain_calls(pc[0]) if pc else set()
     ok = got == {f"is_{k}_chain" for k in PRODUCER_KINDS} and pc is not None and \
         pc[0] == ("or", frozenset(chain_atom(f"is_{k}_chain", "%1") for k in PRODUCER_KINDS))
     run.check(ok, "C12.PART", prod.qual, f"producer kinds {sorted(got)}",
@@ -700,6 +702,21 @@ def check_dfs(run: Run, cx: Ctx) -> None:
                                                for d in init)
                 done = [m for m, lab in cfg.succ[h] if lab == "done"]
                 ok = ok and bool(done) and all(returns_only(m, lambda v: txt(v) == acc) for m in done)
+    if not loops:
+        # the accumulation loop written as a comprehension: every return on the no-match side is the union of the
+        # recursive search over all successors
+        def union_of_recursion(v: ast.AST) -> bool:
+            u3 = union_over(v)
+            if u3 is None or txt(val(u3[0])) != f"self.successors({cur}.component_id)":
+                return False
+            call = u3[2]
+            if not (isinstance(call, ast.Call) and method_call(call, "self", "dfs")):
+                return False
+            a = call_args(call, fn.params[1:4])
+            return a is not None and [txt(val(a[p])) if p in a else None for p in fn.params[1:4]] == [u3[1], vis, cond]
+
+        others = [(t, m, lab) for t in {e[0] for e in hits} for m, lab in cfg.succ[t] if lab in ("true", "false") and (t, m, lab) not in hits]
+        ok = bool(others) and all(returns_only(m, union_of_recursion) for _t, m, _lab in others)
     run.check(ok, "C12.DFS", fn.qual, "recurse into every successor with the same visited set and condition",
               "the search skips successors or changes the condition/visited set while recursing", node=fn.node, file=fn.file)
     seen = edges_establishing(cfg, lambda a: a == ("in", cur, vis), val)
@@ -713,6 +730,23 @@ def check_dfs(run: Run, cx: Ctx) -> None:
 # ------------------------------------------------------------------------------------------------
 def is_call_attr(c: ast.Call, attr: str) -> bool:
     return isinstance(c.func, ast.Attribute) and c.func.attr == attr
+
+
+def union_over(e: ast.AST) -> tuple[ast.AST, str, ast.AST] | None:
+    """`set().union(*(f(x) for x in S))` / `{m for x in S for m in f(x)}`  ->  (S, x, f(x)): the union of f over
+    *every* element of S (no filter), which is what an accumulation loop `acc |= f(x)` computes."""
+    if isinstance(e, ast.Call) and isinstance(e.func, ast.Attribute) and e.func.attr == "union" and is_empty_set(e.func.value) \
+            and len(e.args) == 1 and isinstance(e.args[0], ast.Starred) and not e.keywords:
+        comp = e.args[0].value
+        if isinstance(comp, (ast.GeneratorExp, ast.ListComp, ast.SetComp)) and len(comp.generators) == 1:
+            g = comp.generators[0]
+            if isinstance(g.target, ast.Name) and not g.ifs and not g.is_async:
+                return g.iter, g.target.id, comp.elt
+    if isinstance(e, ast.SetComp) and len(e.generators) == 2:
+        g0, g1 = e.generators
+        if all(isinstance(g.target, ast.Name) and not g.ifs and not g.is_async for g in (g0, g1)) and txt(e.elt) == txt(g1.target):
+            return g0.iter, g0.target.id, g1.iter  # type: ignore[union-attr]
+    return None
 
 
 ORDER_ONLY = ("sorted", "list", "tuple", "reversed", "set", "frozenset")
@@ -767,6 +801,7 @@ def check_emit(run: Run, cx: Ctx) -> None:
                       "ConsumerPowerFormula._gen_with_grid_meter": "the `+` loop ranges over the grid meters only"}
     n = 0
     sources: dict[str, list[tuple[str, str]]] = {}  # function -> [(sign, text of the collection summed)]
+    source_nodes: dict[str, list[ast.AST]] = {}
     for q in targets:
         fn = cx.prep(prog.func(q))
         run.analysed(fn.qual)
@@ -849,6 +884,7 @@ def check_emit(run: Run, cx: Ctx) -> None:
                       "malformed or different formula)", node=loop, file=fn.file,
                       instance=f"{short}: sum loop #{k + 1} emits a well-formed sum")
             sources.setdefault(short, []).append(("-" if subtract else "+", txt(src)))
+            source_nodes.setdefault(short, []).append(src)
             # every term once: what the loop ranges over cannot hold the same component twice
             unique = cx.dupfree.of(fn, val(loop.iter))
             if unique is None:
@@ -887,18 +923,20 @@ def check_emit(run: Run, cx: Ctx) -> None:
     gp = cx.prep(prog.func(targets[0]))
     defs = cx.defs(gp)
     srcs = {s for _sign, s in sources.get("GridPowerFormulaBase._generate", [])}
-    ok = len(srcs) == 1 and next(iter(srcs)) in defs
+    ok = len(srcs) == 1
+    sc: ast.AST | None = None
+    home = gp
     if ok:
-        sc = defs[next(iter(srcs))]
-        if isinstance(sc, ast.Call) and isinstance(sc.func, ast.Name) and sc.func.id in ("set", "frozenset") and len(sc.args) == 1 and not sc.keywords:
-            sc = sc.args[0]
+        # where the summed collection is built: a local of this function or of the private helper that returns it
+        home, sc = collection_def(cx, gp, source_nodes["GridPowerFormulaBase._generate"][0])
+        defs = cx.defs(home)
         ok = isinstance(sc, (ast.SetComp, ast.ListComp, ast.GeneratorExp)) and len(sc.generators) == 1 and not sc.generators[0].is_async \
             and isinstance(sc.generators[0].target, ast.Name)
     if ok:
         g = sc.generators[0]  # type: ignore[union-attr]
         v = g.target.id  # type: ignore[union-attr]
         cond = g.ifs[0] if len(g.ifs) == 1 else ast.BoolOp(op=ast.And(), values=list(g.ifs))
-        ok = bool(g.ifs) and txt(cx.value(gp, defs, g.iter)) == f"self.{cx.R['_get_grid_component_successors']}()" and txt(sc.elt) == v \
+        ok = bool(g.ifs) and txt(cx.value(home, defs, g.iter)) == f"self.{cx.R['_get_grid_component_successors']}()" and txt(sc.elt) == v \
             and category_set(bcanon(cx.norm(deref(cond, defs, containers=True))), v) == {"INVERTER", "EV_CHARGER", "METER"}  # type: ignore[union-attr]
     run.check(ok, "C12.EMIT", gp.qual, "grid power = Σ over every grid successor that is a meter / inverter / EV charger",
               "grid power does not range over every measurable grid successor", node=gp.node, file=gp.file)
@@ -1129,6 +1167,27 @@ def check_source_helper(run: Run, cx: Ctx, h0: FuncInfo) -> None:
                   node=loop, file=fn.file, instance=f"{short}: dedicated meters of every device")
 
 
+def collection_def(cx: Ctx, fn: FuncInfo, e: ast.AST, depth: int = 0) -> tuple[FuncInfo, ast.AST]:
+    """The expression that builds the collection `e`, and the function it is written in: locals are followed to
+    their single definition, `self._helper()` (no arguments, one returned value) into the helper."""
+    defs = cx.defs(fn)
+    if depth < 6 and isinstance(e, ast.Name) and e.id in defs:
+        return collection_def(cx, fn, defs[e.id], depth + 1)
+    if depth < 6 and isinstance(e, ast.Call) and isinstance(e.func, ast.Name) and e.func.id in ("set", "frozenset") \
+            and len(e.args) == 1 and not e.keywords:
+        return collection_def(cx, fn, e.args[0], depth + 1)
+    cls = fn.cls if fn.cls is not None else (fn.outer.cls if fn.outer is not None else None)
+    if depth < 6 and isinstance(e, ast.Call) and method_call(e, "self", e.func.attr if isinstance(e.func, ast.Attribute) else "") \
+            and not e.args and not e.keywords and cls is not None and e.func.attr.startswith("_"):  # type: ignore[union-attr]
+        m = cx.prog.resolve_method(cls, e.func.attr)  # type: ignore[union-attr]
+        if m is not None and not any(e.func.attr in sub.methods for sub in cx.prog.subclasses(cls)):  # type: ignore[union-attr]
+            callee = cx.prep(m)
+            rets = [n.value for s in callee.node.body for n in walk_no_nested(s) if isinstance(n, ast.Return) and n.value is not None]
+            if len(rets) == 1:
+                return collection_def(cx, callee, rets[0], depth + 1)
+    return fn, e
+
+
 def category_set(c: Any, var: str) -> set[str] | None:
     """Categories accepted by a canonical condition on `<var>.category` (membership or equalities)."""
     subj = f"{var}.category"
@@ -1167,6 +1226,23 @@ def subtracted_set_ok(cx: Ctx, fn: FuncInfo, summed: list[tuple[str, str]]) -> b
         return False
     heads = [n for n in cfg.nodes if n.kind == "for" and isinstance(n.ast.target, ast.Name) and txt(val(n.ast.iter)) == gm  # type: ignore[union-attr]
              and any(x is calls[0] for x in ast.walk(n.ast))]  # type: ignore[arg-type]
+    if not heads:
+        # the accumulation loop written as a comprehension: the union of the search below every grid meter
+        parents = parent_map(fn.node)
+        p: ast.AST | None = calls[0]
+        u3 = None
+        while p is not None and u3 is None:
+            p = parents.get(p)
+            u3 = union_over(p) if p is not None else None
+        if u3 is None or p is None or txt(val(u3[0])) != gm or u3[2] is not calls[0]:
+            return False
+        if txt(args[cx.dfs_params[0]]) != u3[1] or not is_empty_set(val(args[cx.dfs_params[1]])):
+            return False
+        minus = [s for sign, s in summed if sign == "-"]
+        names = {t.id for n in ast.walk(fn.node) if isinstance(n, (ast.Assign, ast.AnnAssign)) and n.value is p
+                 for t in (n.targets if isinstance(n, ast.Assign) else [n.target]) if isinstance(t, ast.Name)}
+        allowed = names | {txt(val(ast.Name(id=a, ctx=ast.Load()))) for a in names}
+        return bool(minus) and all(s in allowed for s in minus)
     if len(heads) != 1:
         return False
     h, g = heads[0].id, heads[0].ast.target.id  # type: ignore[union-attr]
@@ -1268,6 +1344,9 @@ def run_rules(run: Run, prog: Program) -> None:
     check_meter(run, cx)
     check_dfs(run, cx)
     check_emit(run, cx)
+    for helper in cx.folder.read.values():  # private helpers read in line are part of what the rules depend on
+        if helper.outer is None:
+            run.analysed(helper.qual)
 
 
 def check(run: Run, prog: Program, tier: str) -> str:
